@@ -83,7 +83,9 @@ func costStr(c crhp2.RPCCost) string {
 	return fmt.Sprintf("base=%s sto=%s ing=%s egr=%s coll=%s", cs(c.Base), cs(c.Storage), cs(c.Ingress), cs(c.Egress), cs(c.Collateral))
 }
 
-// parseActions: a<seed> append, t<n> trim, s<i>:<j> swap, u<i>:<off>:<len>:<seed> update
+// parseActions: a<seed> append, t<n> trim, s<i>:<j> swap, u<i>:<off>:<len>:<seed> update with seeded bytes,
+// U<i>:<seed> update that overwrites the first 64 bytes with those of sector <seed> (turns a sector made by
+// newSector into newSector(seed): succeeds iff the host already stores that sector)
 func (w *world) parseActions(list []string) []crhp2.RPCWriteAction {
 	var out []crhp2.RPCWriteAction
 	for _, a := range list {
@@ -108,6 +110,8 @@ func (w *world) parseActions(list []string) []crhp2.RPCWriteAction {
 		case 'u':
 			data := vhlib.NewRand(n(3)).Bytes(int(n(2)))
 			out = append(out, crhp2.RPCWriteAction{Type: crhp2.RPCWriteActionUpdate, A: n(0), B: n(1), Data: data})
+		case 'U':
+			out = append(out, crhp2.RPCWriteAction{Type: crhp2.RPCWriteActionUpdate, A: n(0), B: 0, Data: append([]byte(nil), w.newSector(n(1))[:64]...)})
 		}
 	}
 	return out
@@ -138,11 +142,6 @@ func (w *world) finish2(kind, op string, c int, before uint64, err error, panick
 		res = "ok"
 	}
 	w.debugf("%s: %v", kind, err)
-	if res == "rej" && err != nil && w.hadUpdate {
-		// the RHP2 `update` action stores the patched sector under its OLD root, so the commit cannot
-		// find the new root (defect owned by C02/C03); the accounting never ran: not a C10 observation
-		res = "skip"
-	}
 	if panicked {
 		res = "panic:" + msg
 	}
@@ -162,26 +161,29 @@ func (w *world) doWrite(p vhlib.ParsedLine) {
 	}
 	acts := w.parseActions(p.List("acts"))
 	proof := p.Int("proof") == 1
-	w.hadUpdate = false
+	hasUpdate := false
 	for _, a := range acts {
-		if a.Type == crhp2.RPCWriteActionUpdate {
-			proof = false // see generator: would crash the host
-			w.hadUpdate = true
-		}
+		hasUpdate = hasUpdate || a.Type == crhp2.RPCWriteActionUpdate
 	}
-	defer func() { w.hadUpdate = false }()
 	rev0 := w.revision(c)
 	settings := w.settings2()
 	remaining := rev0.Revision.WindowEnd - w.node.Chain.Tip().Height
-	cost, cerr := settings.RPCWriteCost(acts, rev0.Revision.Filesize/sectorSize, remaining, proof)
+	// rpcWrite refuses a Merkle proof for update actions before it computes the cost (core's
+	// DiffProofSize cannot handle them); the cost on the line is then that of the proof-less request
+	cost, cerr := settings.RPCWriteCost(acts, rev0.Revision.Filesize/sectorSize, remaining, proof && !hasUpdate)
 	if cerr != nil {
 		w.tr.Count("write:invalid_actions")
 		return
 	}
+	stored := w.updatedRootsStored(c, acts)
 	total, coll := cost.Total()
 	pay := overAmount(total, p.Args["ov"], rev0.Revision.ValidRenterPayout())
 	burn := coll.Mul64(p.U64("bm")).Div64(1000)
-	op := fmt.Sprintf("write c=%d acts=%s ov=%s bm=%d proof=%d %s pay=%s burn=%s", c, p.Args["acts"], p.Args["ov"], p.U64("bm"), vhlib.B01(proof), costStr(cost), cs(pay), cs(burn))
+	op := fmt.Sprintf("write c=%d acts=%s ov=%s bm=%d proof=%d upd=%d ust=%d %s pay=%s burn=%s", c, p.Args["acts"], p.Args["ov"], p.U64("bm"), vhlib.B01(proof),
+		vhlib.B01(hasUpdate), vhlib.B01(stored), costStr(cost), cs(pay), cs(burn))
+	if hasUpdate {
+		w.tr.Count(fmt.Sprintf("write:update_proof%d_stored%d", vhlib.B01(proof), vhlib.B01(stored)))
+	}
 	before := w.revNum(c)
 	err, panicked, msg := w.locked2(c, func(t2 *crhp2.Transport, rev *crhp2.ContractRevision) error {
 		if rev.Revision.ValidRenterPayout().Cmp(pay) < 0 || rev.Revision.MissedHostPayout().Cmp(burn) < 0 {
@@ -192,6 +194,57 @@ func (w *world) doWrite(p vhlib.ParsedLine) {
 		return writeNoProof(t2, renterKey(w.ckey[c]), rev, acts, pay, burn, proof)
 	})
 	w.finish2("write", op, c, before, err, panicked, msg)
+}
+
+// updatedRootsStored simulates the action list on the contract's roots and reports whether the root of
+// every sector patched by an `update` action is a sector the host stores when the revision is committed
+// (stored before the request, or appended earlier in the same request).
+func (w *world) updatedRootsStored(c int, acts []crhp2.RPCWriteAction) bool {
+	roots := append([]types.Hash256(nil), w.node.Contracts.SectorRoots(w.cids[c])...)
+	pending := map[types.Hash256]*[sectorSize]byte{}
+	all := true
+	for _, a := range acts {
+		switch a.Type {
+		case crhp2.RPCWriteActionAppend:
+			sec := (*[sectorSize]byte)(a.Data)
+			r := crhp2.SectorRoot(sec)
+			pending[r] = sec
+			roots = append(roots, r)
+		case crhp2.RPCWriteActionTrim:
+			if a.A <= uint64(len(roots)) {
+				roots = roots[:uint64(len(roots))-a.A]
+			}
+		case crhp2.RPCWriteActionSwap:
+			if a.A < uint64(len(roots)) && a.B < uint64(len(roots)) {
+				roots[a.A], roots[a.B] = roots[a.B], roots[a.A]
+			}
+		case crhp2.RPCWriteActionUpdate:
+			if a.A >= uint64(len(roots)) {
+				return false
+			}
+			var cur [sectorSize]byte
+			if p, ok := pending[roots[a.A]]; ok {
+				cur = *p
+			} else if sec, err := w.node.Volumes.ReadSector(roots[a.A]); err == nil {
+				cur = *sec
+			} else {
+				return false
+			}
+			copy(cur[a.B:], a.Data)
+			nr := crhp2.SectorRoot(&cur)
+			_, inReq := pending[nr]
+			// the lookup updateSector makes: any row of stored_sectors, referenced or not (a sector
+			// appended and trimmed earlier is still there until the next prune)
+			has, _ := w.node.Store.VerifRevenueSectorRow(nr)
+			if !inReq && !has {
+				all = false
+			}
+			patched := cur
+			pending[nr] = &patched
+			roots[a.A] = nr
+		}
+	}
+	return all
 }
 
 // writeNoProof is proto2.RPCWrite with an optional Merkle proof request.
@@ -313,14 +366,15 @@ func (w *world) doRoots(p vhlib.ParsedLine) {
 		return
 	}
 	off, n := p.U64("off"), p.U64("n")
-	if n == 0 {
-		return // would crash the host process (see generator)
-	}
+	secsNow := uint64(len(w.node.Contracts.SectorRoots(w.cids[c])))
 	settings := w.settings2()
 	cost := settings.RPCSectorRootsCost(off, n)
 	total, _ := cost.Total()
 	pay := overAmount(total, p.Args["ov"], w.vrpOf(c))
-	op := fmt.Sprintf("roots c=%d off=%d n=%d ov=%s %s pay=%s burn=0", c, off, n, p.Args["ov"], costStr(cost), cs(pay))
+	op := fmt.Sprintf("roots c=%d off=%d n=%d secs=%d ov=%s %s pay=%s burn=0", c, off, n, secsNow, p.Args["ov"], costStr(cost), cs(pay))
+	if n == 0 || off > secsNow || n > secsNow-off {
+		w.tr.Count("roots:bad_range")
+	}
 	before := w.revNum(c)
 	err, panicked, msg := w.locked2(c, func(t2 *crhp2.Transport, rev *crhp2.ContractRevision) error {
 		if rev.Revision.ValidRenterPayout().Cmp(pay) < 0 {
@@ -370,12 +424,45 @@ type payment struct {
 	byContract bool
 	c, a       int
 	amount     types.Currency
+	// sk skews a payment by contract (the revision is signed as sent, the host must refuse it):
+	// "v<n>" the host's valid payout gains n less than the renter's loses, "m<n>" the host's missed
+	// payout gains n less (the difference goes to the void); "" or "0" = a well-formed payment
+	sk string
 	// set by send when paying by contract: the revision the payment produced (base of a finalisation)
 	rev types.FileContractRevision
 }
 
 func parsePayment(p vhlib.ParsedLine) payment {
-	return payment{byContract: p.Args["by"] == "c", c: p.Int("c"), a: p.Int("a")}
+	return payment{byContract: p.Args["by"] == "c", c: p.Int("c"), a: p.Int("a"), sk: p.Args["sk"]}
+}
+
+// gains returns what the host's valid and missed payouts gain in the proposed payment revision.
+func (pm payment) gains() (up, mup types.Currency) {
+	up, mup = pm.amount, pm.amount
+	if len(pm.sk) < 2 || !pm.byContract {
+		return
+	}
+	n := cur(pm.sk[1:])
+	if n.Cmp(pm.amount) > 0 {
+		n = pm.amount
+	}
+	switch pm.sk[0] {
+	case 'v':
+		up = pm.amount.Sub(n)
+	case 'm':
+		mup = pm.amount.Sub(n)
+	}
+	return
+}
+
+// payStr renders the payment for the op line (amount and what the host's payouts gain).
+func (pm payment) payStr() string {
+	up, mup := pm.gains()
+	sk := pm.sk
+	if sk == "" {
+		sk = "0"
+	}
+	return fmt.Sprintf("sk=%s amt=%s up=%s mup=%s", sk, cs(pm.amount), cs(up), cs(mup))
 }
 
 func (pm payment) String() string {
@@ -408,6 +495,19 @@ func (w *world) send(s *crhp3.Stream, pm *payment) error {
 		if !ok {
 			w.localAbort = true
 			return errHarnessFunds
+		}
+		if up, mup := pm.gains(); !up.Equals(pm.amount) || !mup.Equals(pm.amount) {
+			// skew the revision and sign what is actually sent
+			rev.ValidProofOutputs[1].Value = rev.ValidProofOutputs[1].Value.Sub(pm.amount).Add(up)
+			rev.MissedProofOutputs[1].Value = rev.MissedProofOutputs[1].Value.Sub(pm.amount).Add(mup)
+			req.ValidProofValues[1] = rev.ValidProofOutputs[1].Value
+			req.MissedProofValues[1] = rev.MissedProofOutputs[1].Value
+			if len(rev.MissedProofOutputs) > 2 { // a cleared contract has no void output
+				rev.MissedProofOutputs[2].Value = rev.MissedProofOutputs[2].Value.Add(pm.amount.Sub(mup))
+				req.MissedProofValues[2] = rev.MissedProofOutputs[2].Value
+			}
+			req.Signature = renterKey(w.ckey[pm.c]).SignHash(req.SigHash(rev))
+			w.tr.Count("pay:skewed")
 		}
 		pm.rev = rev
 		if err := s.WriteResponse(&crhp3.PaymentTypeContract); err != nil {
@@ -500,7 +600,7 @@ func (w *world) doPT(p vhlib.ParsedLine) {
 			return
 		}
 		pm.amount = overAmount(pt.UpdatePriceTableCost, p.Args["ov"], w.have(pm))
-		op = fmt.Sprintf("pt %s ov=%s amt=%s", pm, p.Args["ov"], cs(pm.amount))
+		op = fmt.Sprintf("pt %s ov=%s %s", pm, p.Args["ov"], pm.payStr())
 		before = w.revNum(pm.c)
 		order = w.fundingOrder(pm.a)
 		if err = w.send(s, &pm); err != nil {
@@ -515,12 +615,12 @@ func (w *world) doPT(p vhlib.ParsedLine) {
 		w.pt, w.havePT = pt, true
 	})
 	if op == "" {
-		op = fmt.Sprintf("pt %s ov=%s amt=0", pm, p.Args["ov"])
+		op = fmt.Sprintf("pt %s ov=%s %s", pm, p.Args["ov"], pm.payStr())
 	}
 	if panicked {
 		outcome = "panic:" + msg
 	}
-	w.finishPaid("pt", op, pm, before, order, spent, outcome, "")
+	w.finishPaid("pt", op, pm, before, order, spent, outcome, " need="+cs(pt.UpdatePriceTableCost))
 }
 
 // fund c= a= amt=<deposit>   (RPCFundAccount: transfers FundAccountCost + amt)
@@ -530,9 +630,17 @@ func (w *world) doFund(p vhlib.ParsedLine) {
 		return
 	}
 	w.touchAcct(a)
-	amt := cur(p.Args["amt"])
-	pm := payment{byContract: true, c: c, a: a, amount: w.pt.FundAccountCost.Add(amt)}
-	op := fmt.Sprintf("fund c=%d a=%d amt=%s cost=%s tot=%s", c, a, cs(amt), cs(w.pt.FundAccountCost), cs(pm.amount))
+	// amt = the deposit; a negative amt pays that much LESS than the cost of the RPC (must be refused)
+	pm := payment{byContract: true, c: c, a: a, amount: overAmount(w.pt.FundAccountCost, p.Args["amt"], types.ZeroCurrency), sk: p.Args["sk"]}
+	up, mup := pm.gains()
+	sk := pm.sk
+	if sk == "" {
+		sk = "0"
+	}
+	op := fmt.Sprintf("fund c=%d a=%d amt=%s sk=%s cost=%s tot=%s up=%s mup=%s", c, a, p.Args["amt"], sk, cs(w.pt.FundAccountCost), cs(pm.amount), cs(up), cs(mup))
+	if strings.HasPrefix(p.Args["amt"], "-") {
+		w.tr.Count("fund:below_cost")
+	}
 	before := w.revNum(c)
 	var err error
 	panicked, msg := vhlib.Try(func() {
@@ -573,7 +681,7 @@ func (w *world) doBal(p vhlib.ParsedLine) {
 	}
 	w.touchAcct(pm.a)
 	pm.amount = overAmount(w.pt.AccountBalanceCost, p.Args["ov"], w.have(pm))
-	op := fmt.Sprintf("bal %s ov=%s amt=%s", pm, p.Args["ov"], cs(pm.amount))
+	op := fmt.Sprintf("bal %s ov=%s %s", pm, p.Args["ov"], pm.payStr())
 	before := w.revNum(pm.c)
 	order := w.fundingOrder(pm.a)
 	outcome := "rej"
@@ -601,7 +709,7 @@ func (w *world) doBal(p vhlib.ParsedLine) {
 	if panicked {
 		outcome = "panic:" + msg
 	}
-	w.finishPaid("bal", op, pm, before, order, spent, outcome, "")
+	w.finishPaid("bal", op, pm, before, order, spent, outcome, " need="+cs(w.pt.AccountBalanceCost))
 }
 
 // rev by= c= a= ov= q=<contract>   (RPCLatestRevision, paid)
@@ -613,7 +721,7 @@ func (w *world) doRev(p vhlib.ParsedLine) {
 	}
 	w.touchAcct(pm.a)
 	pm.amount = overAmount(w.pt.LatestRevisionCost, p.Args["ov"], w.have(pm))
-	op := fmt.Sprintf("rev %s q=%d ov=%s amt=%s", pm, q, p.Args["ov"], cs(pm.amount))
+	op := fmt.Sprintf("rev %s q=%d ov=%s %s", pm, q, p.Args["ov"], pm.payStr())
 	before := w.revNum(pm.c)
 	order := w.fundingOrder(pm.a)
 	outcome := "rej"
@@ -656,7 +764,7 @@ func (w *world) doRev(p vhlib.ParsedLine) {
 			outcome = "rej"
 		}
 	}
-	w.finishPaid("rev", op, pm, before, order, spent, outcome, "")
+	w.finishPaid("rev", op, pm, before, order, spent, outcome, " need="+cs(w.pt.LatestRevisionCost))
 }
 
 // ---------------------------------------------------------------- programs
@@ -846,7 +954,7 @@ func (w *world) doExec(p vhlib.ParsedLine) {
 	}
 	pm.amount = overAmount(full.total(), p.Args["ov"], w.have(pm))
 	fm := p.U64("fm")
-	op := fmt.Sprintf("exec %s fc=%d prog=%s ov=%s fm=%d amt=%s", pm, fc, p.Args["prog"], p.Args["ov"], fm, cs(pm.amount))
+	op := fmt.Sprintf("exec %s fc=%d prog=%s ov=%s fm=%d %s", pm, fc, p.Args["prog"], p.Args["ov"], fm, pm.payStr())
 	before := w.revNum(pm.c)
 	var fcBefore uint64
 	if fc >= 0 {
